@@ -10,7 +10,9 @@ spec -> code: every complete stack exported by Config.tla replayed on the real f
               temp sys.path for import orders and lazy discovery) and the whole lookup table compared - including
               the references nobody provides in every shape Bank!URefs lists (module path absent at the leaf / at a
               parent package / at the top, or installed without such a provider; plain and dotted aliases), concretised
-              against a small installed module tree, with and without an uninstalled search path on the interface.
+              against a small installed module tree, with and without an uninstalled search path on the interface;
+              every abstract class is abstract in one of the ways of Bank!AbsWays (own abstract method / inherited
+              one left unimplemented / abstract inner class), drawn per class.
 code -> spec: randomised deeper stacks and section resolutions validated by specs/TraceConfig.tla, randomised larger
               hierarchies with interleaved lookups validated by specs/TraceBank.tla.
 """
@@ -524,6 +526,28 @@ GHOSTS = ((0, 0), (1, 0), (2, 0), (2, 1), (3, 0), (3, 1), (3, 2))  # Bank!Ghosts
 PROBES = {'direct': None, 'modules': None, 'seed': 0}
 
 
+WAYS = (1, 2, 3)  # Bank!AbsWays (TraceBank!TInit refuses anything else)
+
+
+def draw_ways(cls, rnd):
+    """One way of being abstract per class (0 for a concrete one), uniformly among those Bank!WaysOK admits: way 2
+    (nothing declared, an inherited abstract method left unimplemented) needs a parent that still has one."""
+    ways = []
+    for d in cls:
+        open_parent = d['par'] == 0 or ways[d['par'] - 1] in (1, 2)
+        ways.append(rnd.choice([w for w in WAYS if w != 2 or open_parent]) if d['abs'] else 0)
+    return ways
+
+
+def default_ways(cls):
+    return [1 if d['abs'] else 0 for d in cls]
+
+
+def _abstract_inner():
+    """a new abstract (inner) class"""
+    return abc.ABCMeta('Inner', (), {'__module__': MOD, 'x': abc.abstractmethod(_fresh())})
+
+
 def full_table(sparse, vias, a, n, urefs=(), tag='', kind='direct'):
     """Every (interface, reference) pair of the domain with its expectation; pairs TLC did not list are
     'missing, and nothing may be returned' (Bank!Table is exported sparsely).  `urefs` = Bank!URefs as exported by
@@ -546,18 +570,20 @@ def full_table(sparse, vias, a, n, urefs=(), tag='', kind='direct'):
 def take_urefs(vectors, rnd):
     """Split what Bank.tla printed: the behaviours, and the constant sets printed once - Bank!URefs (attached to every
     behaviour) and Bank!GhostsAll, the search path configurations under each of which every behaviour is required:
-    one is drawn per behaviour (none / an uninstalled one, half and half)."""
+    one is drawn per behaviour (none / an uninstalled one, half and half) - and Bank!AbsWays, the ways of being
+    abstract: one is drawn per abstract class of every behaviour."""
     consts = [v for v in vectors if 'urefs' in v]
     if len(consts) != 1:
         raise tlc.MachineryError(f'Bank.tla did not export its unknown-reference domain once: {consts}')
     urefs = sorted(tuple(r) for r in consts[0]['urefs'])
     ghosts = sorted(tuple(g) for g in consts[0]['ghosts'])
-    if {t for t, _ in urefs} != {3, 4} or set(ghosts) != set(GHOSTS):
+    if {t for t, _ in urefs} != {3, 4} or set(ghosts) != set(GHOSTS) or sorted(consts[0]['ways']) != list(WAYS):
         raise tlc.MachineryError(f'Bank.tla exported unexpected domains: {consts}')
     vectors = [v for v in vectors if 'urefs' not in v]
     for vec in vectors:
         vec['urefs'] = urefs
         vec['ghost'] = rnd.choice(ghosts[1:]) if rnd.random() < 0.5 else ghosts[0]
+        vec['ways'] = draw_ways(vec['cls'], rnd)
     return vectors, urefs
 
 
@@ -619,11 +645,12 @@ class Hierarchy:
 
     NSPKG = 'c20ns'  # the installed tree of direct hierarchies (created once per run in the sandbox, see direct_namespace)
 
-    def __init__(self, sid, cls, ghost=(0, 0)):
+    def __init__(self, sid, cls, ghost=(0, 0), ways=None):
         from forml import provider as provmod
         self.provmod = provmod
         self.sid = sid
         self.cls = cls
+        self.ways = ways or default_ways(cls)
         self.ns = Namespace(self.NSPKG, 'c20ns')
         self.obj = {0: provmod.Meta(f'S{sid}Root', (provmod.Service,),
                                     {'__module__': MOD, '__qualname__': f'S{sid}Root', 'm0': abc.abstractmethod(_fresh())},
@@ -633,12 +660,18 @@ class Hierarchy:
         import forml
         desc = self.cls[c - 1]
         space = {'__module__': MOD, '__qualname__': f'S{self.sid}C{c}'}
-        if desc['abs']:
+        way = self.ways[c - 1]
+        if way == 1:  # an abstract method of its own
             space[f'm{c}'] = abc.abstractmethod(_fresh())
-        else:
-            for b in chain(self.cls, c):
+        elif way != 2:  # (way 2: nothing declared, an inherited abstract method stays unimplemented)
+            # concrete, or abstract through an inner class only: everything abstract that is inherited is overridden
+            for b in chain(self.cls, c)[1 if way else 0:]:
                 if b == 0 or self.cls[b - 1]['abs']:
                     space[f'm{b}'] = _fresh()
+                if b and self.ways[b - 1] == 3:
+                    space[f'I{b}'] = type('Inner', (), {'__module__': MOD})
+            if way == 3:
+                space[f'I{c}'] = _abstract_inner()
         kwargs = {'alias': f'al{desc["al"]}'} if desc['al'] else {}
         try:
             self.obj[c] = self.provmod.Meta(space['__qualname__'], (self.obj[desc['par']],), space, **kwargs)
@@ -691,7 +724,7 @@ def direct_namespace(tmp):
 def replay_direct(vec, sid):
     """Replay one exported registration history; returns list of problems (dicts)."""
     cls, alias_count = vec['cls'], vec['A']
-    h = Hierarchy(sid, cls, vec['ghost'])
+    h = Hierarchy(sid, cls, vec['ghost'], vec.get('ways'))
     problems = []
     accepted, rejected = [], []
     for step, ev in enumerate(vec['hist']):
@@ -769,7 +802,7 @@ def bank_direct_part(chk, rnd, tmp):
     for k, (vec, problems) in enumerate(zip(vectors, results)):
         lookups += len(full_table([], range(len(vec['acc']) + 1), vec['A'], len(vec['cls']), vec['urefs'])) * (len(vec['hist']) if vec['steptables'] else 1)
         order = [ev['a'] for ev in vec['hist']]
-        replay = {'kind': 'direct', 'cls': vec['cls'], 'order': order, 'ghost': vec['ghost']}
+        replay = {'kind': 'direct', 'cls': vec['cls'], 'order': order, 'ghost': vec['ghost'], 'ways': vec['ways']}
         if not problems:
             chk.validated()
             if k % 1499 == 0:
@@ -784,7 +817,8 @@ def bank_direct_part(chk, rnd, tmp):
     chk.selftest('bank_direct_corrupted_expectation_noticed', bool(replay_direct(vec, 'selftest')))
     chk.extra['bank_direct'] = {'behaviours_replayed': len(vectors), 'lookups_compared': lookups,
                                 'replayed_with_uninstalled_search_path': sum(tuple(v['ghost']) != GHOSTS[0] for v in vectors),
-                                'unknown_reference_shapes': len(urefs), 'shapes_probed_per_interface_and_table': PROBES['direct'] or len(urefs)}
+                                'unknown_reference_shapes': len(urefs), 'shapes_probed_per_interface_and_table': PROBES['direct'] or len(urefs),
+                                'abstract_classes_replayed_by_way': {str(w): sum(v['ways'].count(w) for v in vectors) for w in WAYS}}
 
 
 # ---------------------------------------------------------------------------------------------------------------------
@@ -795,6 +829,7 @@ class Materialised:
 
     def __init__(self, base, sid, vec):
         self.cls, self.names = vec['cls'], vec['name']
+        ways = vec.get('ways') or default_ways(self.cls)
         self.p = f'c20s{sid}'
         self.dir = base
         self.ns = Namespace(f'{self.p}_pkg', self.p)
@@ -819,12 +854,20 @@ class Materialised:
                              f'C{par}' if self.cls[par - 1]['mod'] == m else f'{self.modname[self.cls[par - 1]["mod"]]}.C{par}')
                 alias = f', alias={"al" + str(d["al"])!r}' if d['al'] else ''
                 src.append(f'class C{c}({base_expr}{alias}):')
-                if d['abs']:
+                way = ways[c - 1]  # (as Hierarchy.register)
+                if way == 1:
                     src += ['    @abc.abstractmethod', f'    def m{c}(self):', '        """abstract"""']
+                elif way == 2:
+                    src += ['    """declares nothing"""']
                 else:
-                    for b in chain(self.cls, c):
+                    for b in chain(self.cls, c)[1 if way else 0:]:
                         if b == 0 or self.cls[b - 1]['abs']:
                             src += [f'    def m{b}(self):', '        return None']
+                        if b and ways[b - 1] == 3:
+                            src += [f'    class I{b}:', '        """concrete"""']
+                    if way == 3:
+                        src += [f'    class I{c}(abc.ABC):', '        @abc.abstractmethod', '        def x(self):',
+                                '            """abstract"""']
                 src += ['', '']
             path = os.path.join(base, *name.split('.')) + '.py'
             self._write(path, '\n'.join(src))
@@ -968,7 +1011,7 @@ def bank_modules_part(chk, rnd, tmp):
                 chk.sample({'hierarchy': describe(vec['cls']), 'module_names': vec['name'], 'events': events})
         for p in problems:
             chk.fail(f'{p["what"]} in hierarchy {describe(vec["cls"])} modules {vec["name"]}',
-                     {'kind': 'modules', 'cls': vec['cls'], 'name': vec['name'], 'ghost': vec['ghost'], 'acc': vec['acc'],
+                     {'kind': 'modules', 'cls': vec['cls'], 'name': vec['name'], 'ghost': vec['ghost'], 'ways': vec['ways'], 'acc': vec['acc'],
                       'A': vec['A'], 'hist': vec['hist'], 'table': vec['table'], 'urefs': vec['urefs']})
     # binding self-test
     sys.path.insert(0, base)
@@ -980,7 +1023,8 @@ def bank_modules_part(chk, rnd, tmp):
     chk.extra['bank_modules'] = {'behaviours_exported': total, 'behaviours_replayed': len(vectors),
                                  'replayed_with_uninstalled_search_path': sum(tuple(v['ghost']) != GHOSTS[0] for v in vectors),
                                  'unknown_reference_shapes': len(urefs),
-                                 'shapes_probed_per_interface_and_table': PROBES['modules'] or len(urefs)}
+                                 'shapes_probed_per_interface_and_table': PROBES['modules'] or len(urefs),
+                                 'abstract_classes_replayed_by_way': {str(w): sum(v['ways'].count(w) for v in vectors) for w in WAYS}}
 
 
 def _subdir(base, i):
@@ -1016,7 +1060,8 @@ def bank_trace_part(chk, rnd):
         cls = random_universe(rnd, n, a)
         # half of the root interfaces are configured with a search path that is not installed (Bank!GhostsAll)
         ghost = rnd.choice(GHOSTS[1:]) if rnd.random() < 0.5 else GHOSTS[0]
-        h = Hierarchy(f't{k}', cls, ghost)
+        ways = draw_ways(cls, rnd)  # (Bank!AbsWays)
+        h = Hierarchy(f't{k}', cls, ghost, ways)
         events, accepted, rejected, pending = [], [], [], set(range(1, n + 1))
         known_at = None
         while pending:
@@ -1052,7 +1097,7 @@ def bank_trace_part(chk, rnd):
                     known_at = len(events)
                 events.append({'op': 'get', 'c': 0, 'out': '', 'via': via, 't': t, 'n': num,
                                'res': got if isinstance(got, int) else -1})
-        traces.append({'cls': cls, 'ghost': list(ghost), 'events': events})
+        traces.append({'cls': cls, 'ghost': list(ghost), 'ways': ways, 'events': events})
         meta.append({'known_at': known_at})
     # binding self-test: a trace whose last answered lookup is replaced by another answer
     src = next(t for t in traces if any(e['op'] == 'get' for e in t['events']))
@@ -1068,7 +1113,7 @@ def bank_trace_part(chk, rnd):
                                     {'op': 'get', 'c': 0, 'out': '', 'via': 0, 't': t, 'n': num, 'res': res}]
     synthetic = [(3, 311, 0), (3, 311, -1), (3, 311, 1), (4, 20, 0), (4, 20, -1), (4, 20, 1)]
     for t, num, res in synthetic:
-        traces.append({'cls': shape_cls, 'ghost': [2, 0], 'events': shape_ev(t, num, res)})
+        traces.append({'cls': shape_cls, 'ghost': [2, 0], 'ways': [0], 'events': shape_ev(t, num, res)})
     verdicts = {}
     size = 2000
     for lo in range(0, len(traces), size):
@@ -1090,6 +1135,8 @@ def bank_trace_part(chk, rnd):
     events = 0
     for k, m in enumerate(meta):
         _, matched, length = verdicts[k]
+        if matched < 0:
+            raise tlc.MachineryError(f'TraceBank!TInit refused trace {k} (search path {traces[k]["ghost"]}, ways {traces[k]["ways"]})')
         events += matched
         tr = traces[k]
         if matched == length:
@@ -1102,10 +1149,11 @@ def bank_trace_part(chk, rnd):
         what = (f'class statement of class {ev["c"]} gave {ev["out"]}' if ev['op'] == 'reg' else
                 f'interface {ev["via"]}[{KINDS[ev["t"]]} {ev["n"]}] answered '
                 f'{"another exception than the missing-provider error" if ev["res"] < 0 else ev["res"] or "missing"}') + f' at event {matched} of hierarchy {describe(tr["cls"])}, events {tr["events"][:matched]}'
-        chk.fail(what, {'kind': 'trace', 'cls': tr['cls'], 'ghost': tr['ghost'], 'events': tr['events'][:matched + 1]},
+        chk.fail(what, {'kind': 'trace', 'cls': tr['cls'], 'ghost': tr['ghost'], 'ways': tr['ways'], 'events': tr['events'][:matched + 1]},
                  finding=FINDING if m['known_at'] == matched else None)
     chk.extra['bank_traces'] = {'traces': count, 'events_validated': events, 'lookups_via_runtime_pad': padded,
-                                'lookups_of_unknown_shaped_references': shaped}
+                                'lookups_of_unknown_shaped_references': shaped,
+                                'abstract_classes_by_way': {str(w): sum(t['ways'].count(w) for t in traces[:count]) for w in WAYS}}
 
 
 # ---------------------------------------------------------------------------------------------------------------------
@@ -1149,7 +1197,7 @@ def replay(chk, path):
         return 0 if v[1] == v[2] else 1
     if rep['kind'] == 'direct':
         direct_namespace(os.getcwd())
-        h = Hierarchy('replay', rep['cls'], rep.get('ghost', (0, 0)))
+        h = Hierarchy('replay', rep['cls'], rep.get('ghost', (0, 0)), rep.get('ways'))
         for c in rep['order']:
             print('register', c, rep['cls'][c - 1], '->', h.register(c))
         n = len(rep['cls'])
